@@ -410,9 +410,9 @@ def coq_eval(ctx, files):
         if len(samples) >= nsamp:
             break
         cmds = read_cmds(f)
-        # whole histories, in file order, up to maxops operations; in the quick tier a history that is long or
-        # carries very long keys (thousands of keys below nested wide nodes, 4 KiB sort keys) is left to the
-        # thorough tier: vm_compute on it takes most of a minute
+        # whole histories, in file order, up to maxops operations; a history that is long or carries very long keys
+        # (thousands of keys below nested wide nodes, 4 KiB sort keys) is left to the thorough tier, whose own
+        # limits are wider: vm_compute on it takes most of a minute
         hist, order = {}, []
         for c in cmds:
             t = c.split()
@@ -426,8 +426,9 @@ def coq_eval(ctx, files):
             h = hist[tid]
             if nk > maxops:
                 break
-            if ctx.tier == "quick" and (len(h) > 350 or sum(len(c) for c in h) > 60000):
-                continue
+            lim_n, lim_b = (350, 60000) if ctx.tier == "quick" else (2500, 600000)
+            if len(h) > lim_n or sum(len(c) for c in h) > lim_b:
+                continue   # (the `huge` histories, megabytes of key text, are beyond what vm_compute takes in any tier)
             keep += h
             nk += len(h)
         if not keep:
